@@ -898,6 +898,7 @@ class MultipartReader:
                 return
             elif chunk == self._boundary + b"--":
                 self._at_eof = True
+                await self._read_epilogue()
                 return
 
     async def _read_boundary(self) -> None:
@@ -906,22 +907,25 @@ class MultipartReader:
             pass
         elif chunk == self._boundary + b"--":
             self._at_eof = True
-            epilogue = await self._readline()
-            next_line = await self._readline()
-
-            # the epilogue is expected and then either the end of input or the
-            # parent multipart boundary, if the parent boundary is found then
-            # it should be marked as unread and handed to the parent for
-            # processing
-            if next_line[:2] == b"--":
-                self._unread.append(next_line)
-            # otherwise the request is likely missing an epilogue and both
-            # lines should be passed to the parent for processing
-            # (this handles the old behavior gracefully)
-            else:
-                self._unread.extend([next_line, epilogue])
+            await self._read_epilogue()
         else:
             raise ValueError(f"Invalid boundary {chunk!r}, expected {self._boundary!r}")
+
+    async def _read_epilogue(self) -> None:
+        epilogue = await self._readline()
+        next_line = await self._readline()
+
+        # the epilogue is expected and then either the end of input or the
+        # parent multipart boundary, if the parent boundary is found then
+        # it should be marked as unread and handed to the parent for
+        # processing
+        if next_line[:2] == b"--":
+            self._unread.append(next_line)
+        # otherwise the request is likely missing an epilogue and both
+        # lines should be passed to the parent for processing
+        # (this handles the old behavior gracefully)
+        else:
+            self._unread.extend([next_line, epilogue])
 
     async def _read_headers(self) -> HeadersDictProxy:
         lines = []
